@@ -292,7 +292,31 @@ def u_c18():
     return u.finish()
 
 
-CURATED = dict(core=u_core, c09=u_c09, c10=u_c10, c11=u_c11, c18=u_c18)
+def u_q():
+    """Query universe (C05): ties at every cut, several values per letter on one event, replaceable and
+    parameterised kinds, displaced and deleted leftovers."""
+    u = Universe("q", nauthors=2, nabsent=1)
+    A, B = 1, 2
+    u.add(A, 1, 10, [["t", "x"]], clen=3)                                  # 1
+    u.add(A, 1, 10, [["t", "y"]], clen=4)                                  # 2  tie with 1
+    u.add(A, 1, 11, [["t", "x"], ["t", "y"]], clen=5)                      # 3  two values for one letter
+    u.add(B, 1, 20, [["t", "x"], ["u", "x"]], clen=6)                      # 4
+    u.add(B, 7, 20, [["t", "y"]], clen=7)                                  # 5  tie with 4
+    u.add(A, 7, 11, [["u", "y", "x"], ["tt", "x"]], clen=8)                # 6  value only in 3rd position; 2-letter name
+    u.add(A, 30000, 10, [["d", "x"], ["t", "x"]], clen=9)                  # 7
+    u.add(A, 30000, 20, [["d", "x"], ["t", "x"]], clen=10)                 # 8  replaces 7
+    u.add(B, 1, 11, [["t", ""], ["u"]], clen=11)                           # 9  empty value; tag with a name only
+    u.add(A, 5, 30, [["e", ("ev", 2)]], clen=0)                            # 10 deletes 2
+    u.add(A, 0, 10, [], clen=12)                                           # 11 replaceable
+    u.add(A, 0, 20, [["t", "y"]], clen=13)                                 # 12 replaces 11
+    u.add(B, 1, 10, [["t", "x"]], clen=14)                                 # 13 third event at time 10
+    u.add(B, 1, 12, [["t", "x"], ["t", "x"]], clen=15)                     # 14 repeated identical tag
+    u.s("zz")   # a value no event has
+    u.s("w")    # a tag letter no event has
+    return u.finish()
+
+
+CURATED = dict(core=u_core, c09=u_c09, c10=u_c10, c11=u_c11, c18=u_c18, q=u_q)
 
 
 # ------------------------------------------------------------------------------------------------
